@@ -224,6 +224,46 @@ static void seed_heap(int seed)
 	stoAudit();
 }
 
+
+/* ---- size sweep: every size, one short history each, from the seed heap (fork per size) ------------ */
+static void sweep_add(unsigned long sz, int rooted)
+{
+	Slot *s = &slot[nslot];
+	unsigned char *p;
+	int i;
+	s->req = sz; s->szi = 0; s->code = 1 + nslot % 5; s->rooted = rooted; s->fill = (unsigned char)(0x41 + 29 * nslot);
+	p = (unsigned char *) stoAlloc(s->code, s->req);
+	if (!p) fail("alloc-returned-null");
+	for (i = 0; i < nslot; i++) { unsigned char *q = sptr(&slot[i]); if (!(p + s->req <= q || q + slot[i].req <= p)) fail("alloc-returned-live-memory"); }
+	if (stoSize(p) < sz) fail("size-smaller-than-requested");
+	memset(p, s->fill, s->req);
+	if (rooted) { s->p = p; s->hidden = 0; } else { s->hidden = HIDE(p); s->p = 0; }
+	nslot++;
+}
+static void sweep_one(unsigned long sz)
+{
+	unsigned long k, common;
+	unsigned char *np;
+	path[0] = (int) sz; plen = 1;
+	sweep_add(sz, 1); check_all();
+	sweep_add(4096, 1); check_all();                 /* a neighbour allocated right after */
+	sweep_add(sz, 1); check_all();                   /* same size again */
+	path[plen++] = -1;
+	/* grow the first block a little, then shrink it */
+	np = (unsigned char *) stoResize(slot[0].p, sz + 300);
+	common = sz;
+	for (k = 0; k < common; k++) if (np[k] != slot[0].fill) fail("resize-lost-prefix");
+	slot[0].p = np; slot[0].req = sz + 300; memset(np, slot[0].fill, sz + 300);
+	check_all();
+	path[plen++] = -2;
+	stoFree(slot[1].p); slot[1] = slot[2]; memset(&slot[2], 0, sizeof(Slot)); nslot = 2;
+	check_all();
+	stoGc();
+	check_all();
+	path[plen++] = -3;
+	sweep_add(sz > 8 ? sz - 7 : sz, 1); check_all();
+}
+
 /* ---- explorer --------------------------------------------------------------------------------------- */
 static int shard = 0, nshards = 1;
 static void explore(int remaining, int level)
@@ -279,6 +319,25 @@ int main(int argc, char **argv)
 		if (shard == 0) seen(digest(), depth);
 		explore(depth, 0);
 		printf("STAT mode=dfs seed=%d depth=%d shard=%d done\n", seedno, depth, shard);
+		return 0;
+	}
+	if (!strcmp(mode, "sweep")) {
+		/* c10 sweep <lo> <hi> <seed> : every size in [lo,hi) below 1200, then multiples of 256 and their neighbours */
+		unsigned long lo = strtoul(argv[2], 0, 0), hi = strtoul(argv[3], 0, 0), sz;
+		long n = 0, bad = 0;
+		seedno = atoi(argv[4]);
+		maxslots = MAXSLOT;
+		seed_heap(seedno);
+		for (sz = lo; sz < hi; sz++) {
+			pid_t pid; int st;
+			if (sz > 1200 && (sz % 256) > 1 && (sz % 256) != 255) continue;
+			pid = fork();
+			if (pid == 0) { prctl(PR_SET_PDEATHSIG, SIGKILL); sweep_one(sz); _exit(0); }
+			while (waitpid(pid, &st, 0) < 0) ;
+			n++;
+			if (!WIFEXITED(st) || WEXITSTATUS(st) != 0) { bad++; if (!WIFEXITED(st)) printf("VIOL kind=child-killed seed=%d maxslots=0 ops=%lu\n", seedno, sz); }
+		}
+		printf("STAT mode=sweep seed=%d sizes=%ld bad=%ld\n", seedno, n, bad);
 		return 0;
 	}
 	if (!strcmp(mode, "walk")) {
